@@ -21,6 +21,10 @@ RULE = ("one case = (genome, sequence of contig groups, consumer kind, pipeline,
 SPAN = 10
 
 
+# texts with the same hash (sum of code x 129^i modulo 2^31 - 1, util/ascii_hash.py) as the contig name they are listed under
+COLLIDE = {"a": "aFCZFM", "chr1": "cI6IIl"}
+
+
 def _entries(genome, groups):
     """Each group gets 1-2 entries whose coordinates identify the ORIGIN group (start // SPAN)."""
     rows = []
@@ -333,6 +337,20 @@ def check_vector(v):
                     continue
                 n += 1
                 judge(pipe, cuts, outcome(fn, g, genome, lambda cls: _stream(rows, cuts, cls)))
+        if "x" in groups and genome[0] in COLLIDE and rows:
+            # the unknown name spelt as a text whose hash equals that of the first contig's name (the contig column is looked up by a hash of
+            # the name): it is still a name the genome does not have, and must be refused like any other
+            rows2 = [(COLLIDE[genome[0]] if r[0] == "x" else r[0], r[1], r[2]) for r in rows]
+            for pipe, (_m, cons, fn) in PIPELINES.items():
+                if cons != v["consumer"]:
+                    continue
+                cuts = _chunkings(len(rows2))[-1]
+                n += 1
+                judge(pipe + "[unknown name with a contig's hash]", cuts, outcome(fn, g, genome, lambda cls: _stream(rows2, cuts, cls)))
+            if v["consumer"] == "exhaust":
+                # ... also when the contig column is presented to the genome's own encoding first (as an in-memory table is)
+                n += 1
+                judge("iter_chromosomes[genome-encoded, unknown name with a contig's hash]", cuts, outcome(_iter_chromosomes_encoded, g, rows2, cuts))
         if gder is not None and rows and compatible and "x" not in groups:
             # data without the newly ignored name through the derived genome: what the parent gives (its own ignored name is still dropped)
             for pipe, (_m, cons, fn) in PIPELINES.items():
